@@ -19,7 +19,7 @@ CASES_PER_FILE = 120
 CASE_FILE_BYTES = 140000
 TIERS = {"quick": {"n": 1500}, "thorough": {"n": 24000, "exhaustive": True}}
 RULE = ("three families of histories. oto: up to 3 OneToOne instances built from pairs (dict/pairs/generator/iterator/"
-        "kwargs/non-dict mapping, .unique, .fromkeys), copied (.copy(), OneToOne(x), copy.copy), mutated through either side by "
+        "kwargs/positional+kwargs sharing keys/non-dict mapping, .unique, .fromkeys), copied (.copy(), OneToOne(x), copy.copy), mutated through either side by "
         "[]=, del, pop, popitem, clear, setdefault, update, |=, update-from-another-instance, in 30 % of the histories also "
         "with unhashable operands (TypeError, nothing written); tokens rendered as equal-but-not-identical objects in "
         "rotation, instances of trivial user subclasses mixed in; every instance's "
@@ -155,7 +155,7 @@ class _Mapping:
         return len(self._d)
 
 
-UNIQUE_KEY_FORMS = ("dict", "kwargs", "dict+kw", "mapping", "userdict", "proxy")
+UNIQUE_KEY_FORMS = ("dict", "kwargs", "mapping", "userdict", "proxy")
 
 
 def make_arg(form, pairs):
@@ -183,6 +183,10 @@ def make_arg(form, pairs):
         h = len(ps) // 2
         d = dict(ps[:h])
         return (d,), dict(ps[h:]), lambda: d.clear()
+    if form == "pairs+kw":
+        h = len(ps) // 2
+        l = list(ps[:h])
+        return (l,), dict(ps[h:]), lambda: l.clear()
     if form == "mapping":
         m = _Mapping(ps)
         return (m,), {}, lambda: m._d.clear()
@@ -199,11 +203,19 @@ def make_arg(form, pairs):
 
 def form_ok(form, pairs):
     keys = [k for k, _ in pairs]
+    if form in ("dict+kw", "pairs+kw"):
+        # a positional source AND keyword arguments; the two may SHARE keys (dict.update order: positional
+        # first, keywords last).  Each half must be representable: dict / kwargs need distinct keys.
+        h = len(keys) // 2
+        first, second = keys[:h], keys[h:]
+        if len(set(second)) != len(second) or not all(k in IDENT for k in second):
+            return False
+        if form == "dict+kw" and (len(set(first)) != len(first) or any(k >= 900 for k in first)):
+            return False
+        return True
     if form in UNIQUE_KEY_FORMS and (len(set(keys)) != len(keys) or any(k >= 900 for k in keys)):
         return False
     if form == "kwargs" and not all(k in IDENT for k in keys):
-        return False
-    if form == "dict+kw" and not all(k in IDENT for k in keys[len(keys) // 2:]):
         return False
     return True
 
@@ -230,6 +242,27 @@ def _kw_pairs(rng, toks, lo, hi, unhash=False):
             v = 900 + rng.randrange(3)
         out.append([k, v])
     return out
+
+
+def _poskw_pairs(rng, toks, unhash=False):
+    """-> (pairs, form): a positional half and a keyword half that usually SHARE a key (and, with few tokens,
+    values): first half = positional dict / list of pairs (the list may repeat a key), second half = kwargs"""
+    n1 = rng.randint(1, 3)
+    n2 = n1 + rng.randint(0, 1)
+    form = rng.choice(["dict+kw", "pairs+kw"])
+    k1 = rng.sample(IDENT, n1)
+    if form == "pairs+kw" and n1 >= 2 and rng.random() < 0.5:
+        k1[-1] = k1[0]                                   # a repeated key inside the positional pairs
+    pool = list(dict.fromkeys(k1)) + [k for k in IDENT if k not in k1]
+    k2 = []
+    for k in (pool if rng.random() < 0.75 else pool[::-1]):      # usually start with keys of the positional half
+        if len(k2) < n2:
+            k2.append(k)
+    rng.shuffle(k2)
+
+    def val():
+        return 900 + rng.randrange(3) if unhash and rng.random() < 0.2 else rng.choice(toks)
+    return [[k, val()] for k in k1 + k2], form
 
 
 def _pick_form(rng, forms, pairs):
@@ -301,9 +334,13 @@ def gen_oto(rng, tier):
         i = rng.randrange(ninst)
         s = int(rng.random() < 0.45)
         if r < 0.06 and ninst < 3:
-            p = Up(_pairs(rng, toks, 0, 4))
             uniq = rng.random() < 0.3
-            ops.append(["new", uniq, _pick_form(rng, OTO_FORMS, p), p] + CL())
+            if rng.random() < 0.3:
+                p, f = _poskw_pairs(rng, toks)
+                ops.append(["new", uniq, f, p] + CL())
+            else:
+                p = Up(_pairs(rng, toks, 0, 4))
+                ops.append(["new", uniq, _pick_form(rng, OTO_FORMS, p), p] + CL())
             if not _new_rejects(p) and (not uniq or _creates(p)):     # a constructor that raises creates nothing
                 ninst += 1
         elif r < 0.13 and ninst < 3:
@@ -326,12 +363,18 @@ def gen_oto(rng, tier):
                                "setdefault", "update", "update", "update", "ior", "get"])
             k, v = U(rng.choice(toks)), U(rng.choice(toks))
             if name in ("update", "ior"):
-                if rng.random() < 0.2:
+                if name == "update" and rng.random() < 0.2:
+                    p, f = _poskw_pairs(rng, toks)       # positional source + keywords sharing keys
+                    ops.append(["op", i, s, name, [[a, U(b)] for a, b in p], f])
+                elif rng.random() < 0.2:
                     p = [[a, U(b)] for a, b in _kw_pairs(rng, toks, 1, 3)]
                     ops.append(["op", i, s, name, p, rng.choice(["kwargs", "dict+kw"])])
                 else:
                     p = Up(_pairs(rng, toks, 0, 4))
-                    ops.append(["op", i, s, name, p, _pick_form(rng, OTO_FORMS, p)])
+                    f = _pick_form(rng, OTO_FORMS, p)
+                    if name == "ior" and f == "dict+kw" and len({k for k, _ in p}) != len(p):
+                        f = "pairs"      # |= takes ONE operand: a merged dict would not be the sequence of writes
+                    ops.append(["op", i, s, name, p, f])
             elif name in ("set", "setdefault", "popd"):
                 ops.append(["op", i, s, name, k, v])
             elif name in ("popitem", "clear"):
@@ -405,7 +448,10 @@ def gen_fd(rng, tier):
                            "hash", "hash", "get", "updated", "updated", "copy", "clone"])
         k, v = rng.choice(toks), rng.choice(toks)
         if name in ("update", "ior", "updated"):
-            if rng.random() < 0.35:
+            if name != "ior" and rng.random() < 0.3:
+                p, f = _poskw_pairs(rng, toks, unhash and name == "updated")
+                ops.append([name, p, f])
+            elif rng.random() < 0.3:
                 p = _kw_pairs(rng, toks, 1, 3, unhash and name == "updated")
                 ops.append([name, p, rng.choice(["kwargs", "dict+kw"])])
             else:
@@ -437,6 +483,13 @@ def gen_fd(rng, tier):
         v0 = rng.choice(toks)
         kvs = [[k, v0] for k, _ in kvs]
         ctor = "fromkeys"
+        d = {}
+        for k, v in kvs:
+            d[k] = v
+        items = [[k, v] for k, v in d.items()]
+        rng.shuffle(items)
+    elif rng.random() < 0.15:         # FrozenDict(positional, **kw) with shared keys: the keyword value wins
+        kvs, ctor = _poskw_pairs(rng, toks, unhash)
         d = {}
         for k, v in kvs:
             d[k] = v
